@@ -168,13 +168,18 @@ func (f *FragmentBuffer) Pop() (content []byte, epoch uint16) {
 		return nil, 0
 	}
 
-	firstHeader := frags.fragmentByOffset[0].handshakeHeader
+	firstFragment, ok := frags.fragmentByOffset[0]
+	if !ok {
+		return nil, 0
+	}
+
+	firstHeader := firstFragment.handshakeHeader
 	firstHeader.FragmentOffset = 0
 	firstHeader.FragmentLength = firstHeader.Length
 
 	rawHeader, _ := firstHeader.Marshal()
 
-	messageEpoch := frags.fragmentByOffset[0].recordLayerHeader.Epoch
+	messageEpoch := firstFragment.recordLayerHeader.Epoch
 
 	f.totalBufferSize -= int(frags.fragmentsLength)
 	f.totalFragmentCount -= len(frags.fragmentByOffset)
